@@ -9,6 +9,7 @@ TRUSTED = [
     "Coq 8.16.1 kernel; vm_compute used for the complete enumerations (1728^2 theory pairs, named tables); no native_compute",
     "translator harness/translate/{pyast,logics_tr}.py (Python ast -> Gallina, fail-closed) regenerates gen/Logics.v from pysmt/logics.py on every run; its output is also validated against the running implementation on sampled theory pairs",
     "hand model models/LogicSelect.v of get_closer_logic/most_generic_logic and models/TheoryOracle.v of TheoryOracle, tied by correspondence (this run's counts below)",
+    "translator harness/translate/dispatch_tr.py (Python ast -> Gallina, fail-closed) regenerates gen/Operators.v (node types, ids, names, groups) and gen/Dispatch.v (node type -> name of the handling method, per walker class) from the repository on every run; its output is cross-checked against the live tables (pysmt.operators, walker.functions[op].__name__) and the proofs Operators_proofs / Dispatch_theory_proofs tie the hand model's case analysis to it",
     "module-level logic tables are dumped by importing pysmt.logics from the repository under test",
 ]
 
